@@ -46,6 +46,9 @@ class InterpBase(CtxMixin):
         self.loop_specs = {}
         self.call_depth = 0
         self.func_stack = []
+        self.fn_stack = []
+        self.prove_hook = None
+        self.loop_birth = 0
         self.effects = None
         self.exc_stack = []
         self.skip_methods = {'check_signature', '__repr__'}
@@ -831,9 +834,10 @@ class InterpBase(CtxMixin):
 from .objects import ObjectsMixin, ObjModel
 from .seqs import SeqMixin
 from .lib import LibMixin
+from .loops import LoopMixin
 
 
-class Interp(ObjectsMixin, SeqMixin, LibMixin, InterpBase):
+class Interp(ObjectsMixin, SeqMixin, LoopMixin, LibMixin, InterpBase):
     def __init__(self, roots):
         super().__init__(roots)
         self.objmodel = None
